@@ -549,12 +549,13 @@ func TestVerifC04Sched(t *testing.T) {
 			continue
 		}
 		complete++
+		r.AddExtra(fmt.Sprintf("sched_schedules_%s_%d-requests_bound%d", c.Config, len(c.Kinds), c.Bound), res.Executions)
 		if idx%37 == 0 {
 			r.Sample(map[string]any{"config": c.Config, "requests": c.Kinds, "preemption_bound": c.Bound, "schedules": res.Executions, "choice_points": res.MaxPoints})
 		}
 	}
 	r.AddExtra("sched_multisets_completed", int64(complete))
-	r.Extra("sched_max_choice_points", maxPoints)
+	r.Extra("sched_max_choice_points_seen_by_one_worker", fmt.Sprint(maxPoints))
 }
 
 var _ = nethttp.MethodGet
